@@ -160,6 +160,10 @@ func (e *Env) ident(name string) (TV, error) {
 			}
 		}
 	}
+	// path flag of the function under verification
+	if _, ok := g.keySort["L:pathflag."+name]; ok {
+		return TV{g.get(e.st, "L:pathflag."+name), tyBool}, nil
+	}
 	// ghost variable
 	if gd, ok := g.c.ghosts[name]; ok && gd.IsVar {
 		ty, err := g.c.parseType(gd.Ret)
@@ -616,6 +620,17 @@ func (e *Env) evalCall(x *ECall) (TV, error) {
 			return TV{}, err
 		}
 		return TV{g.unbox(app("i_val", v.t), ty), ty}, nil
+	case "recoverArmed": // a deferred closure that calls recover() unconditionally is registered on every path to here
+		for _, d := range g.defers {
+			db := d.Block()
+			if db != g.cur && !db.Dominates(g.cur) {
+				continue
+			}
+			if recoversAll(d) {
+				return TV{"true", tyBool}, nil
+			}
+		}
+		return TV{"false", tyBool}, nil
 	case "foreign": // dynamic type is not one of the types this package's code names
 		v, err := argv(0)
 		if err != nil {
